@@ -34,6 +34,7 @@ func init() {
 				emit(hx(txt) + "\tdirect")
 				emit(hx(txt) + "\tengine")
 				emit(hx(txt) + "\tenginesrc")
+				emit(hx(txt) + "\twithpair")
 				// The same subset on a blocking rule (mostly rejected: the
 				// modifiers are exception-only) and with other general
 				// modifiers.
@@ -68,6 +69,19 @@ func init() {
 			mi := line
 			var opt rules.CosmeticOption
 			switch mode {
+			case "withpair":
+				// other matching rules around the exception that cancel each other (a blocking rule and its $badfilter twin,
+				// in every position relative to the exception): the option is the one of the exception alone
+				blk, _ := rules.NewNetworkRule("||example.org^$third-party", 1)
+				twin, _ := rules.NewNetworkRule("||example.org^$third-party,badfilter", 1)
+				orders := [][]*rules.NetworkRule{{blk, twin, rule}, {rule, blk, twin}, {blk, rule, twin}, {twin, blk, rule}}
+				opt = rules.NewMatchingResult(orders[len(text)%4], nil).GetCosmeticOption()
+				for _, o := range orders {
+					if got := rules.NewMatchingResult(o, nil).GetCosmeticOption(); got != opt {
+						return fmt.Sprint(uint32(opt)) + "!OPTION-DEPENDS-ON-THE-POSITION-OF-A-CANCELLED-PAIR", f[0] + "\tdirect", rule.Whitelist
+					}
+				}
+				mi = f[0] + "\tdirect"
 			case "enginesrc":
 				// the same exception on a page that has a referrer matched by document-level exceptions of its own
 				// ($genericblock / $urlblock only ever suppress BLOCKING rules): the option is the one of the rule alone
